@@ -134,6 +134,39 @@ func c20Run(pick []int, dirs int, edited []int, failFile int, rel bool) saveObs 
 			// an edit that makes the file shorter: the last declaration goes (and with it, possibly, the last use of an import)
 			df.Decls = df.Decls[:len(df.Decls)-1]
 		}
+		if edited[i] == 3 {
+			// an edit that changes nothing but the case of letters: the first declared name, wherever it occurs
+			// (the print differs from the bytes on disk at the same length)
+			target := ""
+			dst.Inspect(df, func(n dst.Node) bool {
+				if target != "" {
+					return false
+				}
+				switch x := n.(type) {
+				case *dst.FuncDecl:
+					if x.Recv == nil {
+						target = x.Name.Name
+					}
+				case *dst.ValueSpec:
+					target = x.Names[0].Name
+				case *dst.TypeSpec:
+					target = x.Name.Name
+				}
+				return true
+			})
+			if target != "" && target != "_" {
+				flipped := strings.ToLower(target[:1]) + target[1:]
+				if flipped == target {
+					flipped = strings.ToUpper(target[:1]) + target[1:]
+				}
+				dst.Inspect(df, func(n dst.Node) bool {
+					if id, ok := n.(*dst.Ident); ok && id.Name == target && id.Path == "" {
+						id.Name = flipped
+					}
+					return true
+				})
+			}
+		}
 		if edited[i] == 1 {
 			df.Decls = append(df.Decls, &dst.GenDecl{Tok: token.VAR, Specs: []dst.Spec{&dst.ValueSpec{
 				Names: []*dst.Ident{dst.NewIdent(fmt.Sprintf("Added%d", i))}, Values: []dst.Expr{&dst.CallExpr{Fun: &dst.Ident{Name: "Join", Path: "path/filepath"}, Args: []dst.Expr{&dst.BasicLit{Kind: token.STRING, Value: "\"x\""}}}}}}})
@@ -294,6 +327,9 @@ func checkC20(c *Ctx) {
 				for i := 0; i < nf; i++ {
 					nm *= 3
 				}
+				if nf == 1 {
+					nm = 4 // a single file is also edited in the case of its letters only (3)
+				}
 				for mask := 0; mask < nm; mask++ {
 					if c.Quick() && nf >= 2 && r.Intn(4) != 0 {
 						continue
@@ -301,6 +337,9 @@ func checkC20(c *Ctx) {
 					edited := make([]int, nf) // 0 unedited, 1 a declaration added, 2 the last declaration removed
 					for i, m := 0, mask; i < nf; i, m = i+1, m/3 {
 						edited[i] = m % 3
+					}
+					if nf == 1 && mask == 3 {
+						edited[0] = 3
 					}
 					for fail := 0; fail <= nf; fail++ {
 						rel := n%4 == 3
